@@ -293,6 +293,9 @@ pub struct SrvState {
     pub tokens: BTreeMap<Ipv4Addr, Vec<Vec<u8>>>,
     pub model: Model,
     pub tid: u32,
+    /// When set, every exchange with the real server is recorded: (from, request bytes,
+    /// reply bytes as produced by the real encoder or None).
+    pub trace: Option<Vec<(SocketAddrV4, Vec<u8>, Option<Vec<u8>>)>>,
 }
 
 fn keypair(i: u8) -> ed25519_dalek::SigningKey {
@@ -360,6 +363,7 @@ impl SrvState {
                 resident_seq: BTreeMap::new(),
             },
             tid: 0,
+            trace: None,
         };
         let mut sink = Partial::default();
         for a in prime {
@@ -409,7 +413,12 @@ impl SrvState {
             return Err("not a request".into());
         };
         let reply = self.server.handle_request(&self.table, &self.table, from, req);
-        let Some(reply) = reply else { return Ok(None) };
+        let Some(reply) = reply else {
+            if let Some(t) = self.trace.as_mut() {
+                t.push((from, bytes.to_vec(), None));
+            }
+            return Ok(None);
+        };
         let w = WireMessage {
             transaction_id: tid,
             version: None,
@@ -418,6 +427,9 @@ impl SrvState {
             read_only: false,
         };
         let out = encode(&w).map_err(|e| format!("reply does not encode: {e}"))?;
+        if let Some(t) = self.trace.as_mut() {
+            t.push((from, bytes.to_vec(), Some(out.clone())));
+        }
         let k = Krpc::parse(&out).ok_or("reply does not parse with the independent reader")?;
         if k.tid_u32() != Some(tid) {
             return Err("reply tid differs".into());
@@ -1060,3 +1072,51 @@ pub fn replay_path(cfg: SrvCfg, path: &[u16]) -> Partial {
 
 pub const FIVE_MIN: u64 = 5 * MIN;
 pub const ONE_SEC: u64 = SEC;
+
+/// One step of a recorded history, for the replay through a full threaded node.
+#[derive(Clone, Debug)]
+pub enum Recorded {
+    Tick(u64),
+    Exchange { from: SocketAddrV4, request: Vec<u8>, reply: Option<Vec<u8>> },
+}
+
+pub struct Recording {
+    pub steps: Vec<Recorded>,
+    /// Token secrets in the order the server drew them: previous, current, then one per rotation.
+    pub secrets: Vec<[u8; 20]>,
+    pub node_id: Id20,
+}
+
+/// Re-run a path on the E2 machine, recording wire bytes and the secrets the server drew.
+pub fn record_path(cfg: SrvCfg, path: &[u16]) -> Recording {
+    let prime = cfg.prime.clone();
+    let mut cfg0 = cfg.clone();
+    cfg0.prime = vec![];
+    let mut st = SrvState::new(cfg0);
+    st.trace = Some(vec![]);
+    let t0 = st.server.verif_snapshot().tokens;
+    let mut secrets = vec![t0.prev_secret, t0.curr_secret];
+    let mut steps = vec![];
+    let mut sink = Partial::default();
+    let acts: Vec<Act> = prime.into_iter().chain(path.iter().skip(1).map(|a| cfg.alphabet[*a as usize].clone())).collect();
+    for act in acts {
+        st.enter();
+        let before = st.trace.as_ref().map(|t| t.len()).unwrap_or(0);
+        if let Act::Tick(d) = act {
+            st.apply(&act, &mut sink, &[0]);
+            steps.push(Recorded::Tick(d));
+            continue;
+        }
+        st.apply(&act, &mut sink, &[0]);
+        if let Some(t) = st.trace.as_ref() {
+            for (from, request, reply) in &t[before..] {
+                steps.push(Recorded::Exchange { from: *from, request: request.clone(), reply: reply.clone() });
+            }
+        }
+        let cur = st.server.verif_snapshot().tokens.curr_secret;
+        if secrets.last() != Some(&cur) {
+            secrets.push(cur);
+        }
+    }
+    Recording { steps, secrets, node_id: [0x5E; 20] }
+}
